@@ -19,33 +19,37 @@ pub fn type_at(ty: &Ty, path: &[Step], payload: &PV) -> Option<Ty> {
         _ => {}
     }
     let Some(step) = path.first() else { return Some(ty) };
-    let sub = |p: &PV| -> Option<PV> {
-        match (step, p) {
-            (Step::Key(k), PV::Map(m)) => m.iter().find(|(kk, _)| kk == k).map(|x| x.1.clone()),
-            (Step::Index(i), PV::Seq(s)) => s.get(*i).cloned(),
-            _ => None,
-        }
+    // with duplicate keys several children answer to the same step: try each
+    let children: Vec<PV> = match (step, payload) {
+        (Step::Key(k), PV::Map(m)) => m.iter().filter(|(kk, _)| kk == k).map(|x| x.1.clone()).collect(),
+        (Step::Index(i), PV::Seq(s)) => s.get(*i).cloned().into_iter().collect(),
+        _ => vec![],
     };
-    let child = sub(payload).unwrap_or(PV::Null);
-    match (&ty, step) {
-        (Ty::Vec(t), Step::Index(_)) | (Ty::HashSet(t), Step::Index(_)) | (Ty::BTreeSet(t), Step::Index(_)) => {
-            type_at(t, &path[1..], &child)
+    let children = if children.is_empty() { vec![PV::Null] } else { children };
+    for child in &children {
+        if let Some(t) = type_at_child(&ty, step, &path[1..], payload, child) {
+            return Some(t);
         }
-        (Ty::Array(t, _), Step::Index(_)) => type_at(t, &path[1..], &child),
-        (Ty::Tuple(ts), Step::Index(i)) => ts.get(*i).and_then(|t| type_at(t, &path[1..], &child)),
-        (Ty::Map { val, .. }, Step::Key(_)) => type_at(val, &path[1..], &child),
+    }
+    None
+}
+
+fn type_at_child(ty: &Ty, step: &Step, rest: &[Step], payload: &PV, child: &PV) -> Option<Ty> {
+    match (ty, step) {
+        (Ty::Vec(t), Step::Index(_)) | (Ty::HashSet(t), Step::Index(_)) | (Ty::BTreeSet(t), Step::Index(_)) => type_at(t, rest, child),
+        (Ty::Array(t, _), Step::Index(_)) => type_at(t, rest, child),
+        (Ty::Tuple(ts), Step::Index(i)) => ts.get(*i).and_then(|t| type_at(t, rest, child)),
+        (Ty::Map { val, .. }, Step::Key(_)) => type_at(val, rest, child),
         (Ty::Json, _) => Some(Ty::Json),
-        (Ty::Struct(st), Step::Key(k)) => {
-            st.fields.iter().find(|f| !f.skip && f.key == *k).and_then(|f| type_at(&f.src, &path[1..], &child))
-        }
+        (Ty::Struct(st), Step::Key(k)) => st.fields.iter().find(|f| !f.skip && f.key == *k).and_then(|f| type_at(&f.src, rest, child)),
         (Ty::TaggedEnum(en), Step::Key(k)) => {
-            if *k == en.tag && path.len() == 1 {
+            if *k == en.tag && rest.is_empty() {
                 return Some(Ty::Str);
             }
             let PV::Map(m) = payload else { return None };
             let tag = m.iter().find(|(kk, _)| *kk == en.tag).and_then(|(_, v)| if let PV::Str(s) = v { Some(s.clone()) } else { None })?;
             let var = en.variants.iter().find(|v| v.key == tag)?;
-            var.fields.as_ref()?.iter().find(|f| !f.skip && f.key == *k).and_then(|f| type_at(&f.src, &path[1..], &child))
+            var.fields.as_ref()?.iter().find(|f| !f.skip && f.key == *k).and_then(|f| type_at(&f.src, rest, child))
         }
         _ => None,
     }
@@ -310,10 +314,16 @@ pub fn c04(e: &Entry, payload: &PV, src: Src, out: &Outcome) -> Result<(), Viol>
                         if let (RKind::IncorrectValueKind { accepted, .. }, Some(Step::Key(k))) = (kind, r.last()) {
                             if accepted == &vec![Kind::String] {
                                 let p = &r[..r.len() - 1];
-                                if let Some(Ty::TaggedEnum(en)) = type_at(&e.ty, p, payload) {
-                                    if en.tag == *k {
-                                        v.push(p.to_vec());
+                                match type_at(&e.ty, p, payload) {
+                                    Some(Ty::TaggedEnum(en)) => {
+                                        if en.tag == *k {
+                                            v.push(p.to_vec());
+                                        }
                                     }
+                                    // the typed reading of the payload is ambiguous here (duplicate keys,
+                                    // type-blind payload): the exception cannot be ruled out
+                                    None => v.push(p.to_vec()),
+                                    _ => {}
                                 }
                             }
                         }
